@@ -11,7 +11,8 @@ LEVEL = 'exploration'
 TECHNIQUE = ('Hypothesis-generated valid tree shapes (built through __setstate__, heights 1..5, stale '
              'separators, unequal depths) and API histories for acceptance; for detection a catalog of '
              'single corruptions enumerated at every applicable position of each shape, each confirmed '
-             'as a real violation by the independent walker before the package checkers are asked')
+             'as a real violation by the independent walker before the package checkers are asked; '
+             'valid trees and every detected corruption are checked again stored in a mini-ZODB connection with all nodes evicted')
 RULE = ('acceptance point: one valid tree checked by _check(), check.check() and the walker.  '
         'Detection point: one (valid shape, catalog entry, position) rebuilt through __setstate__; '
         'the walker must reject it (else the point is discarded as not-a-corruption), then check() or '
